@@ -276,8 +276,10 @@ def c12(ctx, res, with_drops=True):
             res.sample({"method": "%s::%s" % (adt, m), "own_cursor": mc["Y"], "exhaustion_cursor": mc["E"], "paths": [str(p) for p in got]})
         # constructor
         for b in ctx.facts.bodies:
-            if b.kind == "assoc_fn" and b.impl_self and b.impl_self.get("name") == adt and not b.impl_trait and \
-                    b.j["output"].get("k") == "adt" and b.j["output"].get("name") == adt:
+            if b.kind in ("assoc_fn", "fn") and not b.impl_trait and b.j["output"].get("k") == "adt" and b.j["output"].get("name") == adt \
+                    and any(r.cache in ty_adts(t_) for t_ in (b.j.get("inputs") or [])):
+                # (a constructor is a function that makes the iterator *from a cache*; a helper that only builds the exhausted state
+                #  is judged through the constructor that calls it)
                 check_cursor_ctor(ctx, res, b, adt, front, back)
     # wrappers delegate direction and project the right component
     check_wrappers(ctx, res, [a for a, _ in curs])
@@ -337,6 +339,72 @@ def _cursor_ctor_probs(ctx, b, front, back):
     return good, why
 
 
+def _wrapper_probs(ctx, te, bx, b, a):
+    """(good, why) of the delegation rule evaluated on body `bx` (the wrapper `b` itself or its inlined view)"""
+    rs = te.all_results(bx, max_paths=12)
+    good = 1 <= len(rs) <= 4
+    why = []
+    if not good:
+        why.append("%d paths" % len(rs))
+    # (1) on every path exactly one step of the wrapped iterator, in the same direction, on a field of self
+    for pr in rs:
+        steps = [(full, argt) for (_bb, full, argt, _val, _c) in pr.calls
+                 if " as std::iter::Iterator>::next" in full or " as std::iter::DoubleEndedIterator>::next_back" in full]
+        if len(steps) != 1:
+            good = False
+            why.append("a path steps the wrapped iterator %d times" % len(steps))
+            continue
+        full, argt = steps[0]
+        called = "next_back" if "::next_back" in full else "next"
+        if called != b.name:
+            good = False
+            why.append("`%s` delegates to the wrapped iterator's `%s`" % (b.name, called))
+        a0 = show(argt[0])
+        if not a0.startswith("&*p1.") and not a0.startswith("&p1."):
+            good = False
+            why.append("delegates on `%s`, not on a field of self" % a0[:60])
+    # (2) the projected component, where the wrapper has the recognisable shape inner.map(|pair| pair.N); in any other shape
+    #     (`?`, match, a named fn) the component is forced by parametricity: the item types K and V are distinct type
+    #     parameters, so a value of the item type can only come from the matching component of the wrapped item
+    if len(rs) == 1:
+        t = rs[0].ret
+        proj = None
+        recognised = False
+        if t[0] == "call" and "Option" in t[1] and "::map" in t[1]:
+            clos = t[2][1]
+            if clos[0] == "closure":
+                cb = ctx.facts.body(clos[1])
+                cr = te.all_results(cb, max_paths=4) if cb else []
+                if len(cr) == 1:
+                    ps = show(cr[0].ret)
+                    if ps in ("p2.0", "&p2.0", "*p2.0"):
+                        proj, recognised = 0, True
+                    elif ps in ("p2.1", "&p2.1", "*p2.1"):
+                        proj, recognised = 1, True
+        elif t[0] == "call" and (" as std::iter::Iterator>::next" in t[1] or " as std::iter::DoubleEndedIterator>::next_back" in t[1]):
+            recognised = True
+        out = b.j["output"]
+        item = out["args"][0] if out.get("k") == "adt" and out.get("args") else None
+        gens = [g["name"] for g in a["generics"] if g["kind"] == "type"]
+        want = None
+        if item is not None:
+            core = item
+            while core.get("k") == "ref":
+                core = core["ty"]
+            if core.get("k") == "param" and len(gens) >= 2:
+                want = 0 if core["name"] == gens[0] else (1 if core["name"] == gens[1] else None)
+            elif core.get("k") == "tuple":
+                want = "pair"
+        if recognised:
+            if want == "pair" and proj is not None:
+                good = False
+                why.append("item is the pair but a component is projected")
+            elif want in (0, 1) and proj != want:
+                good = False
+                why.append("item type is the %s but component .%s is projected" % ("key" if want == 0 else "value", proj))
+    return good, why
+
+
 def check_wrappers(ctx, res, cursor_names):
     """Keys/Values/IntoKeys/IntoValues/Drain/IntoIter: each direction delegates to the same direction of the wrapped iterator
     and projects the component named by the item type"""
@@ -358,67 +426,21 @@ def check_wrappers(ctx, res, cursor_names):
             continue
         n += 1
         res.count("C12.2 wrapper methods")
-        rs = te.all_results(b, max_paths=8)
-        good = 1 <= len(rs) <= 4
-        why = []
-        if not good:
-            why.append("%d paths" % len(rs))
-        # (1) on every path exactly one step of the wrapped iterator, in the same direction, on a field of self
-        for pr in rs:
-            steps = [(full, argt) for (_bb, full, argt, _val, _c) in pr.calls
-                     if " as std::iter::Iterator>::next" in full or " as std::iter::DoubleEndedIterator>::next_back" in full]
-            if len(steps) != 1:
-                good = False
-                why.append("a path steps the wrapped iterator %d times" % len(steps))
-                continue
-            full, argt = steps[0]
-            called = "next_back" if "::next_back" in full else "next"
-            if called != b.name:
-                good = False
-                why.append("`%s` delegates to the wrapped iterator's `%s`" % (b.name, called))
-            a0 = show(argt[0])
-            if not a0.startswith("&*p1.") and not a0.startswith("&p1."):
-                good = False
-                why.append("delegates on `%s`, not on a field of self" % a0[:60])
-        # (2) the projected component, where the wrapper has the recognisable shape inner.map(|pair| pair.N); in any other shape
-        #     (`?`, match, a named fn) the component is forced by parametricity: the item types K and V are distinct type
-        #     parameters, so a value of the item type can only come from the matching component of the wrapped item
-        if len(rs) == 1:
-            t = rs[0].ret
-            proj = None
-            recognised = False
-            if t[0] == "call" and "Option" in t[1] and "::map" in t[1]:
-                clos = t[2][1]
-                if clos[0] == "closure":
-                    cb = ctx.facts.body(clos[1])
-                    cr = te.all_results(cb, max_paths=4) if cb else []
-                    if len(cr) == 1:
-                        ps = show(cr[0].ret)
-                        if ps in ("p2.0", "&p2.0", "*p2.0"):
-                            proj, recognised = 0, True
-                        elif ps in ("p2.1", "&p2.1", "*p2.1"):
-                            proj, recognised = 1, True
-            elif t[0] == "call" and (" as std::iter::Iterator>::next" in t[1] or " as std::iter::DoubleEndedIterator>::next_back" in t[1]):
-                recognised = True
-            out = b.j["output"]
-            item = out["args"][0] if out.get("k") == "adt" and out.get("args") else None
-            gens = [g["name"] for g in a["generics"] if g["kind"] == "type"]
-            want = None
-            if item is not None:
-                core = item
-                while core.get("k") == "ref":
-                    core = core["ty"]
-                if core.get("k") == "param" and len(gens) >= 2:
-                    want = 0 if core["name"] == gens[0] else (1 if core["name"] == gens[1] else None)
-                elif core.get("k") == "tuple":
-                    want = "pair"
-            if recognised:
-                if want == "pair" and proj is not None:
-                    good = False
-                    why.append("item is the pair but a component is projected")
-                elif want in (0, 1) and proj != want:
-                    good = False
-                    why.append("item type is the %s but component .%s is projected" % ("key" if want == 0 else "value", proj))
+        good, why = _wrapper_probs(ctx, te, b, b, a)
+        if not (good and not why):
+            # both directions may share a private helper that takes a direction flag: judge the wrapper with its helpers inlined
+            IT = ("std::iter::Iterator", "std::iter::DoubleEndedIterator")
+            try:
+                from ..inline import derive
+                prims = _named_primitives(ctx)
+                b2, inl = derive(ctx, b, lambda tg: tg.path not in prims and not tg.is_closure and tg.impl_trait not in IT, depth=2)
+            except Exception:
+                b2, inl = b, []
+            if inl:
+                good2, why2 = _wrapper_probs(ctx, te, b2, b, a)
+                if good2 and not why2:
+                    good, why = True, []
+                    res.note("C12.2 `%s` judged with %s inlined" % (b.path, ", ".join(x.split("::")[-1] for x in inl)))
         res.oblige("C12.2 `%s` delegates `%s` to the same direction of the wrapped iterator and yields the right component" % (b.path, b.name),
                    good and not why, detail=why, key="C12.2:%s:delegation" % b.path, loc=span_str(b.span), rule="C12.2 wrapper delegation",
                    msg="`%s`: %s" % (b.path, "; ".join(why)))
@@ -589,9 +611,10 @@ def c15(ctx, res):
         user = [(x[1], [show(a) for a in x[2]], x[4]) for x in pr.calls if x[4] is not None and x[4].user_kind == "closure"]
         removes = [(x[1], [show(a) for a in x[2]], x[4]) for x in pr.calls
                    if x[4] is not None and x[4].target is not None and any(cls == "remove" for (_p, (cls, _c)) in ctx.eff.trans(x[4].target)["table"])]
+        splice_paths = set(x.path for x in list_primitives(ctx)[0])
+        # relinking = reaching the splice-in primitive (unlinking a removed entry from its neighbours is part of the removal)
         promos = [x for x in pr.calls if x[4] is not None and x[4].target is not None and
-                  any(ctx.eff.is_link_writer(ctx.facts.body(pp)) for pp in ctx.cg.reach(x[4].target) if ctx.facts.body(pp) is not None)
-                  and not any(cls == "remove" for (_p, (cls, _c)) in ctx.eff.trans(x[4].target)["table"])]
+                  any(pp in splice_paths for pp in ctx.cg.reach(x[4].target))]
         if not entered:
             kinds.add("skip")
             if user or removes:
@@ -792,6 +815,26 @@ def _variant_count(ty):
     return None
 
 
+def _byref_sinks(ctx):
+    """methods of the entry type that take `&mut self` and end the ownership of both slots in place (drop / read them out): applying
+    one to a by-value entry is a sink for that entry just as moving it into a by-value sink is"""
+    if hasattr(ctx, "_byref_sinks_"):
+        return ctx._byref_sinks_
+    r = ctx.roles
+    out = set()
+    for b in ctx.facts.bodies:
+        ins = b.j.get("inputs") or []
+        if not (b.kind == "assoc_fn" and ins and ins[0].get("k") == "ref" and ins[0].get("mut") and r.is_entry_ty(ins[0].get("ty"))
+                and b.impl_self and b.impl_self.get("name") == r.entry):
+            continue
+        prims = [norm(c.resolved or c.nominal) for c in ctx.eff.direct[b.path]["own_prim"]]
+        if sum(1 for n in prims if n in ("std::ptr::drop_in_place", "std::mem::MaybeUninit::assume_init_drop",
+                                         "std::mem::MaybeUninit::assume_init_read", "std::ptr::read")) >= 2:
+            out.add(b.path)
+    ctx._byref_sinks_ = out
+    return out
+
+
 def entry_linearity(ctx, b):
     """forward may-hold dataflow for by-value Entry values; returns list of (local, bb, what) leaks"""
     r = ctx.roles
@@ -882,6 +925,17 @@ def entry_linearity(ctx, b):
                     H.discard(m)
                 elif a.get("k") == "move" and a["place"]["l"] in elocals and not a["place"]["p"]:
                     H.discard(a["place"]["l"])
+            # `entry.drop_in_place_like(&mut self)`: a by-reference sink applied to a held entry consumes it
+            cobj = next((c_ for c_ in ctx.cg.calls.get(b.path, []) if c_.bb == bb), None)
+            if cobj is not None and cobj.target is not None and cobj.target.path in _byref_sinks(ctx) and t["args"]:
+                a0 = t["args"][0]
+                if a0.get("k") in ("move", "copy") and not a0["place"]["p"]:
+                    tmp = a0["place"]["l"]
+                    for bl2 in b.blocks:
+                        for st2 in bl2["stmts"]:
+                            if st2["k"] == "assign" and st2["place"]["l"] == tmp and not st2["place"]["p"] and st2["rv"]["k"] in ("ref", "rawptr") \
+                                    and st2["rv"]["place"]["l"] in elocals and not st2["rv"]["place"]["p"]:
+                                H.discard(st2["rv"]["place"]["l"])
             if t.get("target") is not None:
                 H2 = set(H)
                 d = t["dest"]
@@ -1020,8 +1074,9 @@ def c06(ctx, res):
         ins = b.j.get("inputs") or []
         if b.kind == "assoc_fn" and ins and r.is_entry_ty(ins[0]) and b.impl_self and b.impl_self.get("name") == r.entry:
             sinks.append(b)
-    res.floor("C06.2 sink bodies (take Entry by value)", len(sinks), 3)
-    for b in sinks:
+    byref = [ctx.facts.body(p_) for p_ in sorted(_byref_sinks(ctx))]
+    res.floor("C06.2 sink bodies (take Entry by value)", len(sinks) + len(byref), 3)
+    for b in sinks + byref:
         res.count("C06.2 sinks")
         probs = []
         for p in te.paths(b, max_paths=20):
@@ -1119,12 +1174,12 @@ def c06(ctx, res):
             res.violate("C06.4:anchor-missing:%s" % what, "%s not found" % what, None, {}, "anchors")
             continue
         res.count("C06.4 cache teardown paths")
-        probs = _teardown_probs(ctx, b, what, sinks)
+        probs = _teardown_probs(ctx, b, what, sinks + byref)
         if probs:
             # the drain loop may live in a private helper: judge the body with its helpers inlined before reporting
             b2, inl = derive_inlined(ctx, b)
             if inl:
-                probs2 = _teardown_probs(ctx, b2, what, sinks)
+                probs2 = _teardown_probs(ctx, b2, what, sinks + byref)
                 if not probs2:
                     res.note("C06.4 %s: judged with %s inlined" % (what, ", ".join(x.split("::")[-1] for x in inl)))
                     probs = []
@@ -1533,6 +1588,25 @@ def _te_stores(ctx):
     return ctx._te_st
 
 
+def _neighbours_from_params(ctx, te0, b, c, X):
+    """at call `c` (to the splice primitive) in `b`, are both neighbours expressed through parameters of `b` other than a cache?"""
+    import re
+    r = ctx.roles
+    try:
+        for p in te0.paths(b, max_paths=20):
+            pr = te0.eval_path(b, p)
+            for (bb, full, argt, val, cc) in pr.calls:
+                if cc is not c or len(argt) < 3:
+                    continue
+                sx, sy = show(argt[1]), show(argt[2])
+                if ("." + r.SEAL) in sx or ("." + r.SEAL) in sy:
+                    return False
+                return bool(re.search(r"p\d", sx)) and bool(re.search(r"p\d", sy))
+    except TooComplex:
+        return False
+    return False
+
+
 def c05(ctx, res):
     r, cg, eff = ctx.roles, ctx.cg, ctx.eff
     te = _te(ctx, True)
@@ -1553,10 +1627,12 @@ def c05(ctx, res):
             found = None
             for (X, Y) in (("p2", "p3"), ("p3", "p2")):
                 for (F, G) in ((A, B), (B, A)):
-                    exp = sorted([("*%s.%s.%s" % (X, raw, F), "*p1"), ("*%s.%s.%s" % (Y, raw, G), "*p1"),
-                                  ("**p1.%s.%s" % (raw, G), X), ("**p1.%s.%s" % (raw, F), Y)])
-                    if st == exp:
-                        found = (X, Y, F, G)
+                    # the node is `&mut self` (value *p1, fields **p1.raw.f) or the handle by value (value p1, fields *p1.raw.f)
+                    for (nodeval, nodefld) in (("*p1", "**p1"), ("p1", "*p1")):
+                        exp = sorted([("*%s.%s.%s" % (X, raw, F), nodeval), ("*%s.%s.%s" % (Y, raw, G), nodeval),
+                                      ("%s.%s.%s" % (nodefld, raw, G), X), ("%s.%s.%s" % (nodefld, raw, F), Y)])
+                        if st == exp:
+                            found = (X, Y, F, G)
             if found is None:
                 good = False
                 why.append("stores %s are not a doubly-linked splice of *self between its two arguments" % st)
@@ -1593,13 +1669,30 @@ def c05(ctx, res):
     # callers of splice-in on a cache: node goes between the seal and the seal's MRU link, seal-side field = MRU link
     te0 = _te(ctx, False)
     n_call = 0
-    for b in ctx.facts.bodies:
+    work_b = [(b_, frozenset()) for b_ in ctx.facts.bodies]
+    deferred_b = set()
+    while work_b:
+        b, inl_set = work_b.pop(0)
         for c in cg.calls.get(b.path, []):
             if c.target is None or c.target.path not in splice_field_of_first:
                 continue
+            (X, Y, F, G) = splice_field_of_first[c.target.path]
+            origin = b.path.split("#inl")[0]
+            if len(inl_set) < 4 and _neighbours_from_params(ctx, te0, b, c, X):
+                # a wrapper of the splice primitive that receives the neighbours (or the node they are read from) as parameters:
+                # where the node goes is decided by its callers -- judge them with this wrapper (chain) inlined
+                if origin not in deferred_b:
+                    deferred_b.add(origin)
+                    from ..inline import derive
+                    new_set = inl_set | frozenset([origin])
+                    for cc in cg.callers_of(origin):
+                        if cc.body is not None and not cc.body.is_closure:
+                            X2_, inl_ = derive(ctx, cc.body, lambda tg, _s=new_set: tg.path in _s, depth=len(new_set) + 1)
+                            if inl_:
+                                work_b.append((X2_, new_set))
+                continue
             n_call += 1
             res.count("C05.3 promotion sites")
-            (X, Y, F, G) = splice_field_of_first[c.target.path]
             probs = []
             for p in te0.paths(b, max_paths=20):
                 pr = te0.eval_path(b, p)
@@ -1620,8 +1713,9 @@ def c05(ctx, res):
                     else:
                         probs.append("the node is not linked directly next to the seal on its MRU side (neighbours `%s`, `%s`)" % (sx[:80], sy[:80]))
             uniq = sorted(set(probs))
-            res.oblige("C05.3 `%s` links the node between the seal and the current most-recently-used entry" % b.path, not uniq, detail=uniq,
-                       key="C05.3:%s:mru-side" % b.path, loc=c.loc, rule="C05.3 promotion at the MRU end", msg="`%s`: %s" % (b.path, "; ".join(uniq)))
+            bp_ = b.path.split("#inl")[0]
+            res.oblige("C05.3 `%s` links the node between the seal and the current most-recently-used entry" % bp_, not uniq, detail=uniq,
+                       key="C05.3:%s:mru-side" % bp_, loc=c.loc, rule="C05.3 promotion at the MRU end", msg="`%s`: %s" % (bp_, "; ".join(uniq)))
     res.floor("C05.3 promotion sites", n_call, 1)
     # ---- 1. who may reach the promotion primitive (call graph; complements the E3 may-ghost for everything that is not &mut self)
     promoting = {"insert", "try_insert", "get", "get_entry", "get_lru", "touch", "mutate"}
